@@ -328,10 +328,14 @@ theorem facts_platform :
   refine ⟨rfl, by decide, rfl, rfl, rfl, rfl, rfl, rfl, rfl, rfl, by decide⟩
 
 /-- the comment branch of the tokenizer is `if ch == '\n' { state = gap }` and nothing else; the function defines no
-closure besides `endWord`, `punct`, `isSpace` -/
+closure besides `endWord`, `punct`, `isSpace`; the switch of `case bare:` has no case for quotes (a quote inside a bare
+word goes to `default`: appended to the word) -/
 theorem facts_comment_branch :
     Generated.TelemetryTruth.commentBranch = ["if ch == '\\n' { state = gap }"] ∧
-    Generated.TelemetryTruth.tokenizerClosures = ["endWord", "punct", "isSpace"] := ⟨rfl, rfl⟩
+    Generated.TelemetryTruth.tokenizerClosures = ["endWord", "punct", "isSpace"] ∧
+    Generated.TelemetryTruth.bareBranchCases =
+      ["escaped", "ch == '{' && variable", "ch == '\\\\'", "ch == '$'", "isSpace(ch)", "ch == ';' || ch == '{'", "default"] :=
+  ⟨rfl, rfl, rfl⟩
 
 /-- manager.go gives the collector the change processor as GraphGetter and the event handler as ConfigurationGetter, and
 the handler that same processor -/
